@@ -523,7 +523,40 @@ func traceSite(dump string, preferMain bool) string {
 	return stageOf(blk) + ":" + best
 }
 
-// hangSite: deepest frame common to all stack samples of the stage goroutine.
+// recursionSite: when the goroutine's stack is a runaway recursion (some elk function occurs at least
+// three times among the innermost 60 elk frames; for a stack overflow also: more than 100 frames, so the
+// Go runtime elided the middle) the place where a watchdog sample or the stack-overflow happens to catch it is
+// arbitrary. The stable name of such a failure is the recursion cycle itself; it is represented by
+// the lexicographically smallest site among the repeated ones, marked "~rec".
+func recursionSite(blk string, needElided bool) (string, bool) {
+	if needElided && !strings.Contains(blk, "frames elided") {
+		return "", false
+	}
+	fr := elkFrames(blk)
+	if len(fr) > 60 {
+		fr = fr[:60]
+	}
+	cnt := map[string]int{}
+	for _, f := range fr {
+		if strings.HasPrefix(f.site, "ds/") || isAccessor(f.fn) {
+			continue
+		}
+		cnt[f.site]++
+	}
+	best := ""
+	for s, n := range cnt {
+		if n >= 3 && (best == "" || s < best) {
+			best = s
+		}
+	}
+	if best == "" {
+		return "", false
+	}
+	return best + "~rec", true
+}
+
+// hangSite: deepest frame common to all stack samples of the stage goroutine (or the recursion cycle,
+// see recursionSite, when the last sample shows a runaway recursion).
 func hangSite(dump string) string {
 	parts := strings.Split(dump, "\n=== sample ")
 	if len(parts) < 2 {
@@ -531,6 +564,18 @@ func hangSite(dump string) string {
 	}
 	var common []frame // outermost first
 	stage := "unknown"
+	// a recursion whose depth oscillates is only sometimes caught deep: look at every sample
+	bestRec, recStage := "", ""
+	for _, p := range parts[1:] {
+		if blk := pickBlock(p, true); blk != "" {
+			if rs, ok := recursionSite(blk, false); ok && (bestRec == "" || rs < bestRec) {
+				bestRec, recStage = rs, stageOf(blk)
+			}
+		}
+	}
+	if bestRec != "" {
+		return recStage + ":" + bestRec
+	}
 	for k, p := range parts[1:] {
 		blk := pickBlock(p, true)
 		if k == 0 {
@@ -574,6 +619,13 @@ func fatalSummary(dump string, exit string) string {
 	}
 	if msg == "" {
 		msg = "worker exited (" + exit + ") without a Go trace"
+	}
+	if strings.Contains(msg, "stack overflow") || strings.Contains(msg, "stack exceeds") {
+		if blk := pickBlock(dump, false); blk != "" {
+			if rs, ok := recursionSite(blk, true); ok {
+				return stageOf(blk) + ":" + rs + ":" + firstLine(msg)
+			}
+		}
 	}
 	return traceSite(dump, false) + ":" + firstLine(msg)
 }
